@@ -70,6 +70,23 @@ class Sess:
         return cls._cache[key]
 
 
+def family_session(families: str, addpath: bool = False) -> Negotiated:
+    """A session negotiated for just these families (no extended next hop), as `exabgp decode -f` does."""
+    key = ('fam', families, addpath)
+    if key not in Sess._cache:
+        from exabgp.bgp.message.open.routerid import RouterID
+
+        # iBGP, so that LOCAL_PREF is part of what is re-encoded
+        _, n = sessions.make_config(local_as=65000, peer_as=65000, families=families, add_path=addpath)
+        _, p = sessions.make_config(local_as=65000, peer_as=65000, families=families, add_path=addpath, local_address='127.0.0.2', peer_address='127.0.0.1')
+        if addpath:
+            n.capability.add_path = 3
+            p.capability.add_path = 3
+        p.session.router_id = RouterID('2.2.2.2')
+        Sess._cache[key] = sessions.negotiate(n, p)
+    return Sess._cache[key]
+
+
 def reset_caches() -> None:
     AttributeCollection.cached = None
     AttributeCollection.previous = b''
@@ -97,8 +114,15 @@ def has_path(x: NLRI) -> bool:
 
 
 def nlri_session(x: NLRI) -> tuple[Negotiated, bool]:
-    ap = has_path(x)
+    """The session an object is sent on: ADD-PATH when it carries a path-id and the family can
+    negotiate it (`Capabilities._ADD_PATH`); otherwise `pack_nlri` drops the path-id by design and
+    there is no round trip to speak of (the caller skips the object: `sendable`)."""
+    ap = has_path(x) and bool(Sess.get(True).addpath.send(x.afi, x.safi))
     return Sess.get(ap), ap
+
+
+def sendable(x: NLRI) -> bool:
+    return (not has_path(x)) or bool(Sess.get(True).addpath.send(x.afi, x.safi))
 
 
 def render(x: Any) -> dict:
@@ -133,6 +157,8 @@ def nlri_laws(x: NLRI) -> tuple[list[LawFail], dict]:
     """All single-object laws on an NLRI obtained from any source. Returns (failures, facts)."""
     fails: list[LawFail] = []
     facts: dict = {}
+    if not sendable(x):
+        return fails, {'skipped': 'path-id on a family without ADD-PATH'}
     neg, ap = nlri_session(x)
     try:
         b = bytes(x.pack_nlri(neg))
@@ -290,9 +316,22 @@ def attr_laws(a: Attribute, asn4: bool = True) -> tuple[list[LawFail], dict]:
         return [LawFail('unpack(pack(x))-refused', 'own encoding is treat-as-withdraw / discard', b)], facts
     code = b[1]
     if code not in coll:
+        if klass_name(a) == 'GenericAttribute' and not (b[0] & 0x40):
+            facts['dropped'] = 'unknown optional non-transitive attribute: ignored on receive (RFC 4271 5)'
+            return fails, facts
         return [LawFail('unpack(pack(x))-missing', f'attribute {code} not in the decoded collection', b)], facts
     y = coll[code]
     facts['decoded'] = y
+    if klass_name(a) == 'GenericAttribute' and klass_name(y) != 'GenericAttribute':
+        # `attribute [ 0x20 0xc0 … ]` with the code of a known attribute decodes as that attribute:
+        # only the bytes can be compared
+        try:
+            b2 = bytes(y.pack_attribute(neg))
+            if b2 != b:
+                fails.append(LawFail('pack(unpack(b))!=b', f'{b.hex()} -> {b2.hex()}', b))
+        except Exception as e:  # noqa: BLE001
+            fails.append(LawFail('pack(unpack(b))-raises', err_name(e), b))
+        return fails, facts
     try:
         eq = y == a
         if eq is NotImplemented or not eq:
@@ -525,15 +564,25 @@ def all_classes() -> list[type]:
 
 
 def factories() -> list[tuple[type, str, Callable, inspect.Signature]]:
+    """Every `make_*` / `from_*` / `create` classmethod, bound to the class a caller would use: the
+    repository keeps the code of a registered class in an undecorated `<Name>Base` and registers an
+    empty subclass `<Name>`; the factory is then called through `<Name>`."""
+    classes = all_classes()
+    by_name = {c.__name__: c for c in classes}
     out = []
-    for cls in all_classes():
+    for cls in classes:
+        target = cls
+        if cls.__name__.endswith('Base') and cls.__name__[:-4] in by_name and issubclass(by_name[cls.__name__[:-4]], cls):
+            target = by_name[cls.__name__[:-4]]
+        if cls.__name__ == 'NextHopSelf':
+            continue  # configuration placeholder, replaced by resolve_self before anything is sent
         for name, member in sorted(vars(cls).items()):
             if isinstance(member, (classmethod, staticmethod)) and (name.startswith('make_') or name.startswith('from_') or name == 'create'):
                 try:
                     sig = inspect.signature(member.__func__)
                 except (TypeError, ValueError):
                     continue
-                out.append((cls, name, getattr(cls, name), sig))
+                out.append((target, name, getattr(target, name), sig))
     return out
 
 
@@ -546,74 +595,106 @@ def v6(s: str) -> bytes:
 
 
 INTS = [0, 1, 2, 7, 8, 24, 31, 32, 33, 64, 100, 127, 128, 255, 256, 4095, 65535, 65536, 1048575, 16777215, 4294967295]
-RDS = lambda: [RouteDistinguisher.make_from_elements('10.0.0.1', 5), RouteDistinguisher.make_from_elements('65000', 100), RouteDistinguisher.make_from_elements('4200000000', 1), RouteDistinguisher(bytes(8))]  # noqa: E731
-LABELS = lambda: [Labels.make_labels([100]), Labels.make_labels([0]), Labels.make_labels([1048575]), Labels.make_labels([16, 17]), Labels.NOLABEL, Labels.make_labels([524288], bos=False)]  # noqa: E731
-PATHS = lambda: [PathInfo.DISABLED, PathInfo.NOPATH, PathInfo.make_from_integer(1), PathInfo.make_from_integer(4294967295), PathInfo(b'disa'), PathInfo(b'no-p')]  # noqa: E731
-IPS4 = ['10.0.0.1', '0.0.0.0', '255.255.255.255', '192.168.1.254']
-IPS6 = ['2001:db8::1', '::', 'ffff:ffff:ffff:ffff:ffff:ffff:ffff:ffff', 'fe80::1']
+IPS = {4: ['10.0.0.1', '0.0.0.0', '255.255.255.255', '192.168.1.254'], 6: ['2001:db8::1', '::', 'ffff:ffff:ffff:ffff:ffff:ffff:ffff:ffff', 'fe80::1']}
+MASKS = {4: [24, 0, 1, 8, 31, 32], 6: [64, 0, 1, 32, 127, 128]}
+PACKED = {4: ['10.0.0.0', '255.255.255.255', '0.0.0.0'], 6: ['2001:db8::', 'ffff:ffff:ffff:ffff:ffff:ffff:ffff:ffff', '::']}
 
 
-def pool(cls: type, pname: str, ann: str, default: Any) -> list[Any] | None:
-    """Values for one factory parameter, by annotation and name; None when nothing can be built."""
+def pool(cls: type, pname: str, ann: str, default: Any, fl: int) -> list[Any] | None:
+    """In-domain values for one factory parameter, by annotation and name, for the address-family
+    flavour `fl` (4 or 6) of the call; None when nothing can be built for the type."""
     a = ann.replace("'", '').replace('"', '').strip()
     opt = '| None' in a
     a = a.replace('| None', '').strip()
     n = pname.lower()
     vals: list[Any] | None = None
     if a == 'int':
-        if 'mask' in n or n.endswith('_len') or n in ('iplen', 'maclen', 'netmask', 'endpoint_len'):
-            vals = [0, 1, 8, 24, 31, 32, 33, 48, 64, 127, 128, 129]
-        elif n in ('qfi', 'dscp', 'flags', 'tunnel_type', 'proto_id', 'sr_algo', 'algorithm', 'weight', 'encaps', 'control', 'reserved', 'direction', 'origin'):
-            vals = [0, 1, 2, 3, 6, 63, 64, 127, 128, 255, 256]
-        elif n in ('label', 'base', 'sid', 'labelindex'):
-            vals = [0, 1, 16, 1048575, 1048576, 16777215]
+        if cls.__name__ == 'GenericAttribute' and n == 'code':
+            vals = [99, 254, 255]
+        elif cls.__name__ == 'GenericAttribute' and n == 'flag':
+            vals = [0xE0]  # unknown optional transitive: the decoder sets PARTIAL (RFC 4271 5), so it is given set
+        elif n == 'maclen':
+            vals = [48]
+        elif n in ('endpoint_ip_len', 'source_ip_len'):
+            vals = [32 if fl == 4 else 128] + ([0] if n == 'source_ip_len' else [])
+        elif n == 'endpoint_len':
+            vals = [b + t for b in [32 if fl == 4 else 128] for t in (32, 0, 8, 16, 31)]
+        elif 'mask' in n or n.endswith('_len') or n in ('iplen', 'netmask', 'endpoint_len'):
+            vals = list(MASKS[fl])
+        elif n in ('qfi',):
+            vals = [0, 1, 63]
+        elif n in ('dscp',):
+            vals = [0, 1, 63]
+        elif n in ('flags', 'tunnel_type', 'proto_id', 'sr_algo', 'algorithm', 'weight', 'encaps', 'control', 'direction', 'origin', 'tpose_len', 'tpose_offset', 'loc_block_len', 'loc_node_len', 'func_len', 'arg_len'):
+            vals = [0, 1, 2, 3, 6, 127, 128, 255]
+        elif n in ('reserved',):
+            vals = [0, 255]
+        elif n in ('label', 'base', 'labelindex'):
+            vals = [0, 1, 16, 1048575]
+        elif n in ('offset',) and cls.__name__.startswith('IPrefix'):
+            vals = [0, 8, 64]
+        elif n in ('endpoint', 'size', 'offset', 'mtu', 'sgid2', 'source_as', 'endpoint_behavior', 'behavior', 'order'):
+            vals = [0, 1, 255, 256, 65535]
+        elif n in ('asn',):
+            vals = [0, 1, 65535]
         else:
-            vals = list(INTS)
+            vals = [0, 1, 255, 256, 65535, 65536, 4294967295]
     elif a == 'bool':
         vals = [False, True]
     elif a == 'float':
         vals = [0.0, 1.0, 1000.0, 1e9, 12500000.0]
     elif a == 'str':
         if n in ('ip', 'address', 'endpoint', 'prefix'):
-            vals = IPS4 + IPS6
+            vals = list(IPS[fl])
         elif n == 'sid':
-            vals = IPS6
-        elif n in ('system_id', 'neighbor_id'):
-            vals = ['0000.0000.0001', 'ffff.ffff.ffff', '10.0.0.1']
+            vals = list(IPS[6])
+        elif n in ('system_id',):
+            vals = ['0000.0000.0001', 'ffff.ffff.ffff']
+        elif n in ('neighbor_id',):
+            vals = ['0000.0000.0001', '10.0.0.1']
         elif n in ('ip_string', 'string'):
-            vals = IPS4
+            vals = list(IPS[4])
         else:
-            vals = ['r1', '', 'a' * 255, 'x' * 256]
+            vals = ['r1', '', 'a' * 255]
     elif a in ('bytes', 'Buffer'):
         if n in ('packed', 'raw'):
-            vals = [v4('10.0.0.0'), v4('255.255.255.255'), v6('2001:db8::'), v6('ffff:ffff:ffff:ffff:ffff:ffff:ffff:ffff'), bytes(4), bytes(16)]
+            vals = [(v4 if fl == 4 else v6)(x) for x in PACKED[fl]]
         elif n == 'esi_bytes':
             vals = [bytes(10), bytes(range(1, 11)), b'\xff' * 10]
         elif n == 'tunnel':
             vals = [b'', v4('10.0.0.1'), v6('2001:db8::1'), bytes(range(8))]
         elif n == 'nlri':
             vals = [bytes([24, 10, 0, 0]), bytes([0]), bytes([32, 1, 2, 3, 4])]
+        elif n == 'data' and cls.__name__ in ('NodeOpaque', 'GenericAttribute'):
+            vals = [b'\x01', b'', bytes(range(16)), b'\xab' * 255, b'\xcd' * 256]
         else:
             vals = None  # `data` of from_packet: fed from the decode source instead
     elif a == 'AFI':
-        vals = [AFI.ipv4, AFI.ipv6]
+        vals = [AFI.ipv4 if fl == 4 else AFI.ipv6]
     elif a == 'SAFI':
         from harness.tables.registry import registries
 
         fam = [(x, y) for x, y, k in registries()['families'] if k == cls.__name__]
         vals = sorted({SAFI.from_int(s) for _, s in fam}) or [SAFI.unicast]
     elif a == 'RouteDistinguisher':
-        vals = RDS()
+        vals = [RouteDistinguisher.make_from_elements('10.0.0.1', 5), RouteDistinguisher.make_from_elements('65000', 100), RouteDistinguisher.make_from_elements('4200000000', 1), RouteDistinguisher(bytes(8)), RouteDistinguisher(b'\xff' * 8)]
     elif a == 'Labels':
-        vals = LABELS()
+        vals = [Labels.make_labels([100]), Labels.make_labels([0]), Labels.make_labels([1048575])]
+        evpn = '.evpn.' in cls.__module__
+        if not evpn or cls.__name__ == 'MAC':
+            vals.append(Labels.make_labels([16, 17]))
+        if not evpn:
+            vals.append(Labels.make_labels([3, 3, 3]))
+            vals.append(Labels.NOLABEL)
+        opt = opt and not evpn
     elif a == 'PathInfo':
-        vals = PATHS()
+        vals = [PathInfo.DISABLED, PathInfo.NOPATH, PathInfo.make_from_integer(1), PathInfo.make_from_integer(4294967295), PathInfo(b'disa'), PathInfo(b'no-p')]
     elif a in ('IP', 'IP | bytes'):
-        vals = [IP.from_string(s) for s in IPS4 + IPS6]
+        vals = [IP.from_string(x) for x in IPS[fl]]
     elif a == 'IPv4':
-        vals = [IPv4.from_string(s) for s in IPS4]
+        vals = [IPv4.from_string(x) for x in IPS[4]]
     elif a == 'IPv6':
-        vals = [IPv6.from_string(s) for s in IPS6]
+        vals = [IPv6.from_string(x) for x in IPS[6]]
     elif a == 'ESI':
         vals = [ESI.make_default(), ESI.make_esi(bytes(range(1, 11))), ESI.make_esi(b'\xff' * 10)]
     elif a == 'EthernetTag':
@@ -621,54 +702,41 @@ def pool(cls: type, pname: str, ann: str, default: Any) -> list[Any] | None:
     elif a == 'MACQUAL':
         vals = [MACQUAL('00:11:22:33:44:55'), MACQUAL('ff:ff:ff:ff:ff:ff'), MACQUAL('00:00:00:00:00:00')]
     elif a in ('ASN', 'ASN4'):
-        vals = [ASN(0), ASN(1), ASN(65000), ASN(65535), ASN(65536), ASN(4294967295)]
+        vals = [ASN(65000), ASN(0), ASN(1), ASN(65535)] + ([ASN(65536), ASN(4294967295)] if a == 'ASN4' or cls.__name__ in ('RTC', 'Aggregator4', 'RouteTargetASN4Number', 'OriginASN4Number') else [])
     elif a == 'CIDR':
-        vals = [CIDR.create_cidr(v4('10.0.0.0'), 24), CIDR.create_cidr(v4('0.0.0.0'), 0), CIDR.create_cidr(v4('1.2.3.4'), 32), CIDR.create_cidr(v6('2001:db8::'), 32), CIDR.create_cidr(v6('2001:db8::1'), 128), CIDR.create_cidr(v6('::'), 0)]
+        vals = [CIDR.create_cidr((v4 if fl == 4 else v6)(x), m) for x, m in zip(PACKED[fl] * 2, MASKS[fl])]
     elif a == 'Action':
-        vals = [Action.ANNOUNCE, Action.WITHDRAW, Action.UNSET]
-    elif a == 'RouteTarget':
+        vals = [Action.ANNOUNCE, Action.UNSET]
+    elif a in ('RouteTarget', 'rt.RouteTarget'):
         from exabgp.bgp.message.update.attribute.community.extended.rt import RouteTargetASN2Number, RouteTargetASN4Number, RouteTargetIPNumber
 
         vals = [RouteTargetASN2Number.make_route_target(ASN(65000), 100), RouteTargetIPNumber.make_route_target('10.0.0.1', 5), RouteTargetASN4Number.make_route_target(ASN(4200000000), 7), RouteTargetASN2Number.make_route_target(ASN(65000), 100, False)]
     elif a in ('dict[str, int]',):
-        names = list(getattr(cls, 'FLAGS', []) or [])
-        names = [x for x in names if isinstance(x, str) and x != 'RSV']
-        vals = [{}, {k: 1 for k in names}, {k: 0 for k in names}]
+        names = [x for x in (getattr(cls, 'FLAGS', []) or []) if isinstance(x, str) and not x.startswith('RSV')]
+        vals = [{k: 0 for k in names}, {k: 1 for k in names}]
         if names:
-            vals.append({names[0]: 1})
+            vals.append({**{k: 0 for k in names}, names[0]: 1})
     elif a in ('list[int]', 'Sequence[int]'):
-        vals = [[], [0], [1, 2, 3], [4294967295], [16, 1048575]]
+        if n == 'sids':
+            vals = [[100], [0], [1048575]]  # one SID per TLV (RFC 9085 2.1.1 / 2.2.1)
+        else:
+            vals = [[1, 2, 3], [], [0], [4294967295], [16, 1048575]]
     elif a == 'Sequence[float]':
-        vals = [[0.0] * 8, [1000.0] * 8, [1.0, 2.0]]
+        vals = [[0.0] * 8, [1000.0] * 8]
     elif a == 'list[list[int]]':
         vals = [[[100, 16000]], [[1, 1], [2, 2]], []]
     elif a == 'list[tuple[int, int]]':
         vals = [[(16000, 8000)], [(0, 0), (1048575, 16777215)], []]
     elif a == 'Sequence[IPv4]':
         vals = [[IPv4.from_string('1.1.1.1')], [IPv4.from_string('1.1.1.1'), IPv4.from_string('2.2.2.2')], []]
-    elif a == 'list[NodeDescriptor]':
-        try:
-            from exabgp.bgp.message.update.nlri.bgpls.tlvs.node import NodeDescriptor
-
-            mk = [m for m in dir(NodeDescriptor) if m.startswith('make_')]
-            built = []
-            for m in mk:
-                for arg in ([65000], [1], ['10.0.0.1'], ['0000.0000.0001']):
-                    try:
-                        built.append(getattr(NodeDescriptor, m)(*arg))
-                        break
-                    except Exception:  # noqa: BLE001
-                        continue
-            vals = [built[:1], built] if built else None
-        except Exception:  # noqa: BLE001
-            vals = None
     elif a.startswith('Sequence[SET'):
         from exabgp.bgp.message.update.attribute.aspath import CONFED_SEQUENCE, CONFED_SET, SEQUENCE, SET
 
+        big = cls.__name__ == 'AS4Path'
         vals = [
-            [],
             [SEQUENCE([ASN(65000)])],
-            [SEQUENCE([ASN(1), ASN(65535), ASN(65536), ASN(4294967295)])],
+            [],
+            [SEQUENCE([ASN(1), ASN(65535)] + ([ASN(65536), ASN(4294967295)] if big else []))],
             [SET([ASN(1), ASN(2)]), SEQUENCE([ASN(3)])],
             [CONFED_SEQUENCE([ASN(64512)]), CONFED_SET([ASN(64513)]), SEQUENCE([ASN(100)] * 255)],
             [SEQUENCE([ASN(7)] * 256)],
@@ -679,43 +747,46 @@ def pool(cls: type, pname: str, ann: str, default: Any) -> list[Any] | None:
         return None
     if opt:
         vals = list(vals) + [None]
-    if default is not inspect.Parameter.empty and not any(v is default for v in vals):
+    if default is not inspect.Parameter.empty and not any(v is default or (type(v) is type(default) and not isinstance(v, (PathInfo,)) and v == default) for v in vals):
         vals = [default] + list(vals)
     return list(vals)
 
 
 def factory_calls(cls: type, name: str, fn: Callable, sig: inspect.Signature, rng, extra: int) -> Iterable[tuple[dict, Any]]:
-    """(arguments, result or exception) for a boundary sweep of one factory: the base point, every
-    parameter varied over its whole pool, and `extra` random points."""
+    """(arguments, result or exception) for a boundary sweep of one factory, once per address-family
+    flavour: the base point, every parameter varied over its whole pool, and `extra` random points."""
     params = [p for p in sig.parameters.values() if p.name not in ('cls', 'self')]
-    pools = []
-    for p in params:
-        vs = pool(cls, p.name, str(p.annotation), p.default)
-        if vs is None:
-            return
-        pools.append(vs)
-    if not params:
-        combos = [()]
-    else:
-        base = [vs[0] for vs in pools]
-        combos = [tuple(base)]
-        for i, vs in enumerate(pools):
-            for v in vs[1:]:
-                c = list(base)
-                c[i] = v
-                combos.append(tuple(c))
-        # a second base point (IPv6 flavoured) so that address-family dependent arguments meet
-        base2 = [vs[min(len(vs) - 1, 2)] for vs in pools]
-        combos.append(tuple(base2))
-        for _ in range(extra):
-            combos.append(tuple(rng.choice(vs) for vs in pools))
-    for c in combos:
-        kw = {p.name: v for p, v in zip(params, c)}
-        try:
-            res = fn(**kw)
-        except Exception as e:  # noqa: BLE001
-            res = e
-        yield kw, res
+    seen = set()
+    for fl in (4, 6):
+        pools = []
+        for p in params:
+            vs = pool(cls, p.name, str(p.annotation), p.default, fl)
+            if vs is None:
+                return
+            pools.append(vs)
+        if not params:
+            combos = [()]
+        else:
+            base = [vs[0] for vs in pools]
+            combos = [tuple(base)]
+            for i, vs in enumerate(pools):
+                for v in vs[1:]:
+                    c = list(base)
+                    c[i] = v
+                    combos.append(tuple(c))
+            for _ in range(extra):
+                combos.append(tuple(rng.choice(vs) for vs in pools))
+        for c in combos:
+            kw = {p.name: v for p, v in zip(params, c)}
+            key = repr(show_args(kw))
+            if key in seen:
+                continue
+            seen.add(key)
+            try:
+                res = fn(**kw)
+            except Exception as e:  # noqa: BLE001
+                res = e
+            yield kw, res
 
 
 def show_args(kw: dict) -> dict:
@@ -723,6 +794,93 @@ def show_args(kw: dict) -> dict:
     for k, v in kw.items():
         if isinstance(v, (bytes, bytearray, memoryview)):
             out[k] = bytes(v).hex()
+        elif isinstance(v, PathInfo):
+            out[k] = 'DISABLED' if v is PathInfo.DISABLED else 'path:' + bytes(v.pack_path()).hex()
         else:
             out[k] = repr(v)[:60]
     return out
+
+
+def wrap_component(obj: Any) -> Attribute | None:
+    """A value that only travels inside a container attribute → the container holding just it."""
+    from exabgp.bgp.message.update.attribute.community.extended.communities import ExtendedCommunities, ExtendedCommunitiesIPv6
+    from exabgp.bgp.message.update.attribute.community.extended.community import ExtendedCommunityBase, ExtendedCommunityIPv6
+
+    if isinstance(obj, ExtendedCommunityIPv6):
+        return ExtendedCommunitiesIPv6.make_extended_communities_ipv6([obj])
+    if isinstance(obj, ExtendedCommunityBase):
+        return ExtendedCommunities.make_extended_communities([obj])
+    if hasattr(obj, 'pack_tlv'):
+        from exabgp.bgp.message.update.attribute.sr.prefixsid import PrefixSid
+
+        if type(obj) in PrefixSid.registered_srids.values():
+            return PrefixSid([obj])
+    return None
+
+
+def ls_component_laws(obj: Any) -> tuple[list[LawFail], dict]:
+    """A BGP-LS attribute TLV built by a factory: framed as one TLV of a LINK_STATE attribute (type,
+    length, the bytes the object keeps), decoded through the real attribute parser; the decoded
+    TLV must be of the same class and render the same."""
+    from exabgp.bgp.message.update.attribute.bgpls.linkstate import BaseLS
+
+    fails: list[LawFail] = []
+    facts: dict = {}
+    if not isinstance(obj, BaseLS):
+        return fails, {'skip': True}
+    payload = bytes(obj._packed)
+    tlv = int(obj.TLV).to_bytes(2, 'big') + len(payload).to_bytes(2, 'big') + payload
+    attr = bytes([0x80, 29, len(tlv)]) + tlv if len(tlv) < 256 else bytes([0x90, 29]) + len(tlv).to_bytes(2, 'big') + tlv
+    facts['bytes'] = attr
+    neg = Sess.get(False)
+    try:
+        coll = decode_attr_block(attr, neg)
+    except Exception as e:  # noqa: BLE001
+        return [LawFail('unpack(pack(x))-raises', err_name(e), attr)], facts
+    if 29 not in coll:
+        return [LawFail('unpack(pack(x))-refused', 'own encoding is treat-as-withdraw / discard', attr)], facts
+    try:
+        got = coll[29].ls_attrs
+    except Exception as e:  # noqa: BLE001
+        return [LawFail('unpack(pack(x))-raises', err_name(e), attr)], facts
+    if len(got) != 1:
+        return [LawFail('unpack(pack(x))!=x', f'{len(got)} TLVs decoded from one', attr)], facts
+    y = got[0]
+    facts['decoded'] = y
+    if type(y) is not type(obj) and type(y).__name__ != type(obj).__name__:
+        fails.append(LawFail('class-changes-after-roundtrip', f'{klass_name(obj)} -> {klass_name(y)}', attr))
+    for name, fn in (('json', lambda o: o.json()), ('str', lambda o: repr(o))):
+        try:
+            rx = fn(obj)
+        except Exception as e:  # noqa: BLE001
+            fails.append(LawFail(f'{name}-raises', 'built: ' + err_name(e), attr))
+            continue
+        try:
+            ry = fn(y)
+        except Exception as e:  # noqa: BLE001
+            fails.append(LawFail(f'{name}-raises', 'decoded: ' + err_name(e), attr))
+            continue
+        if rx != ry:
+            fails.append(LawFail(f'{name}-differs-after-roundtrip', f'{rx} | {ry}', attr))
+    if bytes(y._packed) != payload:
+        fails.append(LawFail('pack(unpack(b))!=b', f'{payload.hex()} -> {bytes(y._packed).hex()}', attr))
+    try:
+        whole = render_attr(coll[29])
+        for k, v in whole.items():
+            if v.startswith('raised'):
+                fails.append(LawFail(f'{k}-raises', v, attr))
+    except Exception as e:  # noqa: BLE001
+        fails.append(LawFail('json-raises', err_name(e), attr))
+    return fails, facts
+
+
+def is_wire_attribute(a: Any) -> bool:
+    """A path attribute that has a wire form of its own (not an internal marker, not a component)."""
+    from exabgp.bgp.message.update.attribute.community.extended.community import ExtendedCommunityBase
+
+    if not isinstance(a, Attribute) or isinstance(a, ExtendedCommunityBase):
+        return False
+    try:
+        return 0 < int(a.ID) < 256
+    except Exception:  # noqa: BLE001
+        return False
